@@ -66,12 +66,8 @@ pub async fn send_authentication<W: AsyncWriteExt + Unpin>(
     let padding_sizes = padding_factory.generate_record_payload_sizes(0);
     let padding_len = padding_sizes.first().copied().unwrap_or(0);
 
-    // Ensure padding_len is non-negative
-    let padding_len = if padding_len < 0 {
-        0
-    } else {
-        padding_len as u16
-    };
+    // The length field is 16 bits: keep padding_len within 0..=65535
+    let padding_len = padding_len.clamp(0, u16::MAX as i32) as u16;
 
     // Write padding0_length
     writer.write_all(&padding_len.to_be_bytes()).await?;
